@@ -151,15 +151,15 @@ func init() {
 			}
 			return c
 		}})
-	Register(seqProp{id: "C09",
-		rule: "cases: C02-style histories in which the collector runs 1-3 times after (almost) every step, half of the time followed by a drain to exact quiescence (physical deletions done), with snapshot transactions of different ages open and right after Begin; every 4th case is a deep chain; the all-actors read-back after each collector run must equal the model (which ignores the collector), and so must the rest of the history; non-trivial = a collector run happened with an overwritten key present",
+	Register(propC09{seqProp{id: "C09",
+		rule: "three quarters of the cases: C02-style sequential histories in which the collector runs 1-3 times after (almost) every step, half of the time followed by a drain to exact quiescence (physical deletions done), with snapshot transactions of different ages open and right after Begin; every 4th case is a deep chain; the all-actors read-back after each collector run must equal the model (which ignores the collector), and so must the rest of the history; one quarter: concurrent programs (snapshot readers that begin during the run and read everything twice, multi-key committers, autocommit writers, always a collector actor) judged by C08's interval rules; non-trivial = a collector run happened with an overwritten key present (sequential) / client operations overlapped (concurrent)",
 		runs: [2]int{4000, 160000},
 		gen: func(r *simrt.Rand, idx int, tier string) SeqCase {
 			if idx%4 == 3 {
 				return genDeepChain(r, "C09", 100+r.Intn(300))
 			}
 			return genSeqCase(r, seqProfile{prop: "C09", steps: [2]int{20, 70}, keys: [2]int{2, 3}, maxTx: 5, txWeight: 65, gcEvery: true, readback: "all"})
-		}})
+		}}})
 	Register(seqProp{id: "C13",
 		rule: "cases: C02-style histories in which ended transaction handles (after Commit, failed Commit, Rollback, and after a reopen) keep being used for Get/GetReader/GetKeys/Set/SetReader/Create/Delete/Commit/Rollback in seeded order while observers of all levels are open; every late call except Rollback must return ErrTxNotFound (Rollback nil) and no observer's read-back may change; non-trivial = at least one late call was made",
 		runs: [2]int{4000, 160000},
@@ -221,6 +221,77 @@ func init() {
 			}
 			return c
 		}})
+}
+
+// propC09: three quarters sequential histories with the collector at every boundary, one quarter
+// concurrent programs in which the collector (direct and timer) overlaps Begin, reads and commits
+// of snapshot transactions (C08's generator and interval rules): the collector must not change
+// what any open transaction reads, whenever it runs.
+type propC09 struct{ seqProp }
+
+type C09Case struct {
+	Seq  *SeqCase  `json:"seq,omitempty"`
+	Conc *ConcCase `json:"conc,omitempty"`
+}
+
+func (p propC09) Gen(r *simrt.Rand, idx int, tier string) any {
+	if idx%4 == 1 {
+		c := genC08(r, idx, tier)
+		c.Prop = "C09"
+		// always with a collector actor
+		hasGC := false
+		for _, cl := range c.Clients {
+			for _, o := range cl {
+				if o.K == "gc" || o.K == "gctimer" {
+					hasGC = true
+				}
+			}
+		}
+		if !hasGC {
+			c.Clients = append(c.Clients, []Op{{K: "gc"}, {K: "yield", N: r.Intn(40)}, {K: "gctimer"}, {K: "gc"}})
+		}
+		return C09Case{Conc: &c}
+	}
+	c := p.seqProp.gen(r, idx, tier)
+	return C09Case{Seq: &c}
+}
+func (p propC09) Decode(b json.RawMessage) (any, error) {
+	var c C09Case
+	err := json.Unmarshal(b, &c)
+	return c, err
+}
+func (p propC09) Exec(x any, choices []int32) RunOut {
+	c := x.(C09Case)
+	if c.Seq != nil {
+		return seqExec(*c.Seq, choices)
+	}
+	out, cr := concExec(*c.Conc, choices)
+	if out.Violation != nil || out.Infra != "" || out.Inconclusive != "" {
+		return out
+	}
+	out.NonTrivial = cr.overlaps() > 0
+	if v := checkC08(*c.Conc, cr, &out); v != nil {
+		v.Signature = "C09" + strings.TrimPrefix(v.Signature, "C08") + ",collector-concurrent"
+		v.Detail += "\nhistory (event numbers):\n" + cr.histText(60)
+		out.Violation = v
+	}
+	return out
+}
+func (p propC09) Shrink(x any) []any {
+	c := x.(C09Case)
+	var out []any
+	if c.Seq != nil {
+		for _, s := range p.seqProp.Shrink(*c.Seq) {
+			sc := s.(SeqCase)
+			out = append(out, C09Case{Seq: &sc})
+		}
+		return out
+	}
+	for _, d := range concShrink(*c.Conc) {
+		d := d
+		out = append(out, C09Case{Conc: &d})
+	}
+	return out
 }
 
 // propC14: three quarters sequential histories, one quarter small concurrent programs (C06's
